@@ -7,3 +7,13 @@ fn main() {
 }
 
 fn f(_s: &str, _n: i32) {}
+
+/// Adds one.
+/// Second line of the doc comment: é
+pub fn add_one(x: i32) -> i32 {
+    //! inner doc
+    x + 1
+}
+
+/** block doc */
+pub struct Unit;
